@@ -23,6 +23,8 @@ def clone(v, memo):
         r = Obj(v.cls)
         memo[k] = r
         r.f = {a: clone(b, memo) for a, b in v.f.items()}
+        if hasattr(v, "tag"):
+            r.tag = v.tag
         return r
     if isinstance(v, dict):
         r = type(v)()
